@@ -178,7 +178,7 @@ CHECKS = {
             "Trusted: TLC, the audit-hook/stat-wrapper instrumentation as the definition of 'touches the OS'; directories named by "
             "checkerlang_module_path count as module source directories; get_env and os.getcwd are drift.",
             "DESIGN.md 4 C09"),
-    "C13": (["FormsOps.tla", "Forms.tla", "Natives_Trace.tla"],
+    "C13": (["FormsOps.tla", "Forms.tla", "FormsGraphOps.tla", "FormsGraph.tla", "Natives_Trace.tla"],
             "TLA+ table of 158 syntactic forms with value/error rules over a 24-value pool (TLC: NotStuck, exports the case list); "
             "every case and an arity <= 3 sweep of all 601 live function sites executed under a watchdog; TLC trace validation in "
             "which host exceptions, timeouts, non-Value error values and uncatchable errors are accepted by no action",
@@ -262,6 +262,37 @@ C04_EXTRA = (" Binding B: every NodeIf / NodeFor / NodeWhile and every function 
              "string keys; other kinds counted as unchecked), each once; break consumed by the innermost loop, return passed "
              "on, the while condition re-tested before every iteration; a call yields the returned value.")
 
+ADDENDA = {
+    "C01": " Outcomes are compared across fresh processes with other string-hash seeds and reversed parse order; lexeme variants "
+           "cover what the host's int()/float()/isdigit() tolerate but the language does not; a Unicode character alphabet (K5).",
+    "C02": " A two-operand family over every ORDERED pair of an 18-value pool (NULL on either side, TRUE memberships, whole decimal "
+           "quotients, int against decimal) and n-ary and/or; Arith_Trace also validates < <= > >= == != on ints of any magnitude.",
+    "C03": " Destructuring assignment / definition, the compound-assignment spelling, NULL passed as an argument, receivers that are "
+           "expressions with effects and three-link prototype chains are part of the model's families.",
+    "C04": " Families also hold loops in the tail position of a function ending in `return`, three-deep nests, map comprehensions "
+           "whose keys repeat, and sets / maps changed between two loops over them.",
+    "C05": " Families e5 (a clause value that is a variable, in a block run twice), e6 (an error crossing a call whose argument's "
+           "_str_ fails) and contexts 4 / 5 (loop over an input, code handed to eval as text).",
+    "C08": " Round 2: numbers manufactured by natives (table Make, invariants MakerShape / MakerLaws) are judged by their own type().",
+    "C10": " Round 2: caller-supplied environments (fresh / kept / child of the session; CallerEnvDetached, SessionsIsolated; "
+           "Session_pinnedenv.cfg must yield TLC's counterexample).",
+    "C11": " Round 2: the empty and the repeated-source import list, spellings of bundled module names (Modules_spell.cfg), "
+           "importer programs run through the command-line runner.",
+    "C12": " Round 2: elements that render alike (functions, streams, objects differing in hidden members, sets / maps of them): "
+           "RelationsOK, StableSortOK, 130 more templates.",
+    "C13": " Round 2: FormsGraph.tla enumerates short programs that build collections holding themselves, `_proto_` loops and "
+           "changed keys, each ending in one of eleven observers (18.8k programs quick); REPL sessions evaluate failing lines.",
+    "C14": " Spellings cover digit separators in every numeral form, both quote styles with the other quote escaped, \\xNN in either "
+           "case; optional semicolons before end / catch / finally; comments that look like code; 16 re-renderings per program.",
+    "C15": " find with a start on lists; reads through a variable index, twice, and through one function applied to two sequences; "
+           "lists whose equal elements are spelled as ints and as decimals.",
+    "C16": " Round 2: five non-mutating library actions and the ResultIndependent rule (which argument containers a result is or "
+           "holds); an object with a prototype; a set that holds a list.",
+    "C19": " Round 2: every law also in the legacy environment; chunks yields no empty piece and no piece for an empty input.",
+    "C20": " 56 runtime-fault templates (one per kind of raising node), scanner errors at the line of the rejected lexeme, syntax "
+           "faults inside modules, several file names.",
+}
+
 NOT_YET = "check not built yet in this round (planned, see DESIGN.md section 4)"
 
 
@@ -272,6 +303,7 @@ def main():
         if pid not in CHECKS:
             continue
         mods, tech, text, note, ref = CHECKS[pid]
+        text = text + ADDENDA.get(pid, "")
         if pid == "C03":
             mods = mods + ["Env_Trace.tla"]
             text = text + C03_EXTRA
